@@ -1,6 +1,7 @@
 package engine
 
 import (
+	"reflect"
 	"strings"
 
 	"github.com/uber-go/gopatch/internal/data"
@@ -58,6 +59,12 @@ var c08Misplaced = []faCase{
 	{name: "wellformed-plus-slices-and-types",
 		patch: "@@\nvar x expression\n@@\n-view(x)\n+wrap(func() (chan<- int, interface{}) { _ = x[:]; return nil, struct{}{} })\n",
 		minus: "package p\n\nvar a = ⟦view(«x:buf»)⟧\n"},
+	{name: "wellformed-plus-inferred-array",
+		patch: "@@\nvar x expression\n@@\n-mk(x)\n+[...]int{x}\n",
+		minus: "package p\n\nvar a = ⟦mk(«x:1»)⟧\n"},
+	{name: "wellformed-minus-inferred-array",
+		patch: "@@\nvar x expression\n@@\n-[...]int{x}\n+[]int{x}\n",
+		minus: "package p\n\nvar a = ⟦[...]int{«x:1»}⟧\n\nvar b = [1]int{2}\n"},
 	{name: "ident-mv-everywhere-is-fine", idents: []string{"v"},
 		patch: "@@\nvar v identifier\n@@\n-foo(v)\n+x.v\n",
 		minus: "package p\n\nvar a = ⟦foo(«v:name»)⟧\n"},
@@ -80,6 +87,9 @@ func VerifC08Misplaced() {
 	nd.Assert((out == nil) != (err == nil), c.name+": Replace must return a file or an error")
 	if strings.HasPrefix(c.name, "wellformed") {
 		nd.Assert(err == nil, c.name+": a well-formed patch failed on its own instance")
+	}
+	if out != nil {
+		nd.Assert(c08OnlyGoNodes(reflect.ValueOf(out), 0), c.name+": a pattern-only node (not a go/ast node) leaked into the rewritten file; go/printer cannot print it")
 	}
 	nd.Reach("done")
 }
@@ -113,4 +123,43 @@ func VerifC16RewriteErrors() {
 	nd.Assert((err != nil) == anyErr, c.name+": building the replacement of a matched site failed but Change.Replace did not report it (or reported a failure nobody had)")
 	nd.Assert((out == nil) == (err != nil), c.name+": a file was returned together with an error")
 	nd.Reach("done")
+}
+
+// c08OnlyGoNodes: every node reachable in the rewritten tree is a go/ast node.
+func c08OnlyGoNodes(v reflect.Value, depth int) bool {
+	if depth > 80 {
+		return true
+	}
+	switch v.Kind() {
+	case reflect.Interface:
+		if v.IsNil() {
+			return true
+		}
+		return c08OnlyGoNodes(v.Elem(), depth+1)
+	case reflect.Ptr:
+		if v.IsNil() {
+			return true
+		}
+		switch v.Type() {
+		case faObjType, faScopeType:
+			return true
+		}
+		if v.Type().Implements(faNodeType) && !strings.HasPrefix(v.Type().String(), "*ast.") {
+			return false
+		}
+		return c08OnlyGoNodes(v.Elem(), depth+1)
+	case reflect.Slice:
+		for i := 0; i < v.Len(); i++ {
+			if !c08OnlyGoNodes(v.Index(i), depth+1) {
+				return false
+			}
+		}
+	case reflect.Struct:
+		for i := 0; i < v.NumField(); i++ {
+			if !c08OnlyGoNodes(v.Field(i), depth+1) {
+				return false
+			}
+		}
+	}
+	return true
 }
